@@ -581,7 +581,9 @@ func newKey(r *vh.RNG) dkey {
 	}
 }
 
-func epText(e discover.VerifEndpoint) string { return fmt.Sprintf("%s/%d/%d", vh.Hex(e.IP), e.UDP, e.TCP) }
+func epText(e discover.VerifEndpoint) string {
+	return fmt.Sprintf("%s/%d/%d", vh.Hex(e.IP), e.UDP, e.TCP)
+}
 func restText(rest [][]byte) string {
 	if len(rest) == 0 {
 		return "-"
@@ -721,6 +723,48 @@ func modelDecodeReq(netcompat bool, buf []byte) string {
 // modelStride-th datagram (the implementation and the direct oracle run on all of them).
 var modelStride, strideCtr = 1, 0
 
+// time budget of the exhaustive discovery sweeps: the position step and the model stride of
+// each packet's sweep are derived from what is left of the budget and the measured cost of one
+// implementation run / one model query, so that the tier's wall time is bounded on any machine
+// while everything the budget allows is covered (thorough on an idle machine: every position).
+var (
+	sweepModelTime   time.Duration
+	sweepModelCalls  int
+	sweepDeadline    time.Time
+	sweepPacketsLeft int
+)
+
+func planSweep(c *vh.Ctx, positions int) (pstep, stride int) {
+	costModel := 8 * time.Millisecond
+	if sweepModelCalls > 20 {
+		costModel = sweepModelTime / time.Duration(sweepModelCalls)
+	}
+	costGo := 400 * time.Microsecond // decode + recover + sign of a re-signed variant
+	share := time.Until(sweepDeadline)
+	if sweepPacketsLeft > 1 {
+		share /= time.Duration(sweepPacketsLeft)
+	}
+	if share < 50*time.Millisecond {
+		share = 50 * time.Millisecond
+	}
+	total := 4 * positions // truncations, mutations, re-signed truncations, re-signed mutations
+	pstep = 1
+	if goAll := time.Duration(total) * costGo; goAll > share/2 {
+		pstep = int(2*goAll/share) + 1
+		total = total/pstep + 4
+	}
+	rest := share - time.Duration(total)*costGo
+	stride = 1
+	if need := time.Duration(total) * costModel; need > rest {
+		if rest < costModel {
+			rest = costModel
+		}
+		stride = int(need/rest) + 1
+	}
+	c.Count(fmt.Sprintf("discover/sweep-plan pstep=%d", pstep))
+	return pstep, stride
+}
+
 func checkDatagramSampled(c *vh.Ctx, m *vh.Model, class string, netcompat bool, buf []byte) decObs {
 	strideCtr++
 	if strideCtr%modelStride == 0 {
@@ -743,7 +787,11 @@ func checkDatagram(c *vh.Ctx, m *vh.Model, class string, netcompat bool, buf []b
 	}
 	c.Eval(class, key)
 	c.Count("discover/result-" + o.class)
-	c.Correspond("decodePacket~decode_packet", fmt.Sprintf("netcompat=%v %s", netcompat, vh.Hex(buf)), o.line, m.Ask(modelDecodeReq(netcompat, buf)))
+	tm := time.Now()
+	ans := m.Ask(modelDecodeReq(netcompat, buf))
+	sweepModelTime += time.Since(tm)
+	sweepModelCalls++
+	c.Correspond("decodePacket~decode_packet", fmt.Sprintf("netcompat=%v %s", netcompat, vh.Hex(buf)), o.line, ans)
 	if o.panicked {
 		rep := H{"kind": "decode", "netcompat": netcompat, "buf": vh.Hex(buf), "panic": o.pval, "sigdata_len": len(buf) - discover.VerifHeadSize}
 		if !netcompat && len(buf)-discover.VerifHeadSize < 5 && strings.Contains(o.pval, "slice bounds out of range") {
@@ -813,7 +861,8 @@ func discovery(c *vh.Ctx, m *vh.Model) {
 		}
 	}
 
-	modelStride = c.Scale(5, 1)
+	sweepDeadline = time.Now().Add(time.Duration(c.Scale(9, 360)) * time.Second)
+	sweepPacketsLeft = c.Scale(1, 6) * 8
 	nValid := c.Scale(10, 80)
 	for i := 0; i < nValid; i++ {
 		for kind := 0; kind < 4; kind++ {
@@ -849,10 +898,9 @@ func discovery(c *vh.Ctx, m *vh.Model) {
 					continue
 				}
 				// every truncation (quick tier: every position of packets up to 160 bytes, a stride on longer ones)
-				pstep := 1
-				if !c.Thorough() {
-					pstep = len(pkt)/160 + 1
-				}
+				var pstep int
+				pstep, modelStride = planSweep(c, len(pkt))
+				sweepPacketsLeft--
 				for l := 0; l < len(pkt); l += pstep {
 					ot := checkDatagramSampled(c, m, "discover/truncated", nc, pkt[:l])
 					if ot.class == "ok" {
